@@ -633,6 +633,34 @@ def run(ctx):
         else:
             coq_parse.append(('("%s",0,0,0,[])' % m.hex(), m))
 
+    # foreign descriptions (optional flag, LZF size hint in cd[2], unknown ids) x chunk: reader_apply correspondence
+    rd_cases, coq_read = [], []
+    nfree = [(2, b"shuffle", 0, [4]), (2, b"", 1, [8]), (2, b"shuffle", 1, [3]), (3, b"fletcher32", 0, []), (3, b"", 1, []),
+             (32000, b"lzf", 0, [4, 0, 0]), (32000, b"lzf", 1, [4, 0, 64]), (32000, b"lzf", 0, [4, 0, 16]), (999, b"x", 1, []), (999, b"", 0, [1])]
+    for _ in range(150 if quick else 3000):
+        fl = [rng.choice(nfree) for _ in range(rng.randrange(1, 4))]
+        m = v1_message(fl) if rng.random() < 0.6 else v2_message([f for f in fl if f[0] < 256] or [nfree[0]])
+        k = rng.random()
+        x = gen_payload(rng, rng.choice(["zeros", "text", "random", "run"]), rng.choice([0, 3, 8, 16, 24, 64]))
+        if k < 0.4:
+            data = x
+        elif k < 0.7:
+            data = x + struct.pack("<I", py_fletcher32(x))
+        else:
+            lit = bytearray()
+            for i in range(0, len(x), 32):
+                lit += bytes([len(x[i:i + 32]) - 1]) + x[i:i + 32]
+            data = bytes(lit)
+        rd_cases.append({"msg": m.hex(), "data": data.hex()})
+    rd_res = vlib.run_harness(H, "c08read", rd_cases)
+    evaluations += len(rd_cases)
+    for c, r in zip(rd_cases, rd_res):
+        if "panic" in r:
+            violation("reader panicked", failing_input=dict(message=c["msg"], stored=c["data"]), impl=r["panic"]); continue
+        if not r.get("parse_ok"):
+            continue
+        coq_read.append(('("%s","%s",%d,"%s")' % (c["msg"], c["data"], code_of(r.get("reader_ok")), r.get("reader", "") if r.get("reader_ok") else ""), c))
+
     # ------------------------------------------------------------------ C: corruption
     cor_cases, cor_meta = [], []
     ncor = 54 if quick else 5000
@@ -853,7 +881,7 @@ def run(ctx):
             out.append(c); used += len(c[2])
         return out + bigs
     if quick:
-        coq_stage = budget(coq_stage, 40000, keep_big=2)
+        coq_stage = budget([c for c in coq_stage if not (c[1]['t'] == 'shuffle' and len(c[2]) > 1100)], 32000, keep_big=1)
         coq_rstep = budget(coq_rstep, 16000)
         coq_cor = budget(coq_cor, 10000)
     else:
@@ -879,6 +907,11 @@ def run(ctx):
         vparts.append("Definition %s : list (string * N * N * N * list gdesc) := [%s].\n" % (name, ";".join(c[0] for c in coq_parse[k:k + 400])))
         vparts.append("Definition bad_%s := Eval vm_compute in mismatches parse_ok %s.\n" % (name, name))
         labels.append(("bad_" + name, "parse", coq_parse[k:k + 400]))
+    for k in range(0, len(coq_read), 400):
+        name = "rd_%d" % k
+        vparts.append("Definition %s : list (string * string * N * string) := [%s].\n" % (name, ";".join(c[0] for c in coq_read[k:k + 400])))
+        vparts.append("Definition bad_%s := Eval vm_compute in mismatches read_ok %s.\n" % (name, name))
+        labels.append(("bad_" + name, "read", coq_read[k:k + 400]))
     vparts.append("Definition ALLBAD := Eval vm_compute in [%s].\nPrint ALLBAD.\n" % ";".join("N.of_nat (List.length %s)" % l[0] for l in labels))
     for l in labels:
         vparts.append("Print %s.\n" % l[0])
@@ -891,7 +924,7 @@ def run(ctx):
     ncoq = sum(len(l[2]) for l in labels)
     what_of = {"st": "one filter stage (writer Apply, writer Remove, reader step)", "rs": "reader step on a malformed chunk",
                "co": "writer Remove / reader on an altered Fletcher chunk",
-               "msg": "pipeline message bytes", "parse": "ParseFilterPipelineMessage"}
+               "msg": "pipeline message bytes", "parse": "ParseFilterPipelineMessage", "read": "ApplyFilters on a foreign description"}
     for (lab, tag, chunk), nbad in zip(labels, counts):
         if nbad == 0:
             continue
